@@ -58,6 +58,8 @@ func init() {
 				ruleTransportPassThrough(c, "C01.9")
 				ruleProxyForwardsSameEnvelopeOnce(c, "C01.9")
 				ruleDemuxRouting(c, "C01.9", "C01.9")
+				// a reply finds its way back through the proxies it came through
+				ruleReturnRoute(c, "C01.9", nil)
 			})
 			c.guard("C01.10", func() {
 				// one caller's failure does not take other callers' replies away; replies wait only for their queue
@@ -95,6 +97,11 @@ func init() {
 			c.guard("C02.7", func() { ruleHalfCloseAndFinalStatus(c, "C02.7") })
 			c.guard("C02.8", func() { ruleTransportPassThrough(c, "C02.8") })
 			c.guard("C02.9", func() { ruleWaitingEscapable(c, "C02.9") })
+			c.guard("C02.10", func() {
+				// a stream receives its messages only if no other call is ever registered under its id
+				ruleAtomicIds(c, "C02.10")
+				ruleOneIdPerCall(c, "C02.10")
+			})
 		},
 	})
 	register(&propSpec{
@@ -155,6 +162,10 @@ func init() {
 			})
 			c.guard("C05.5", func() { ruleRegistrationKey(c, "C05.5") })
 			c.guard("C05.6", func() { ruleFreshPerCallState(c, "C05.6") })
+			c.guard("C05.9", func() {
+				// no call sees another call's header: every envelope is built around its own header object
+				ruleShapeCatalogue(c, "C05.9")
+			})
 			c.guard("C05.8", func() {
 				// what one call receives is not storage shared with the next: every transport hands up the envelope it
 				// decoded into a fresh object, and hands down exactly the caller's envelope
@@ -454,7 +465,11 @@ func init() {
 			c.guard("C19.1", func() { ruleTransportCtxDiscipline(c, "C19.1") })
 			c.guard("C19.2", func() { ruleTransportRejection(c, "C19.2"); ruleWebsocketRejectsOnlyNonEnvelopes(c, "C19.2") })
 			c.guard("C19.3", func() { ruleTransportPassThrough(c, "C19.3") })
-			c.guard("C19.4", func() { ruleHttpIdleCleanup(c, "C19.4") })
+			c.guard("C19.4", func() {
+				ruleHttpIdleCleanup(c, "C19.4")
+				// the closure signal of an HTTP connection is closed at most once
+				ruleNoDoubleClose(c, "C19.4", func(d string) bool { return d == "done" })
+			})
 			c.guard("C19.5", func() {
 				ruleChannelReadFailsAfterClose(c, "C19.5", c.p.MustFn("goat.httpReadWriter.Read"), "httpReadWriter.Read")
 				r, _ := c.p.rwClosures(c.p.MustFn("goat.NewGoatOverChannel"))
